@@ -156,7 +156,7 @@ plan = {
   "M3 status conversion stub: absent or 0 -> KSI_OK, anything else -> one symbolic non-zero error code",
   "M4 transport stub (the four client callbacks), contract read off net_tcp_async.c:382-511: addRequest accepts (state WAITING_FOR_DISPATCH, reqTime = now, keeps the reference) or refuses without touching the handle; dispatch moves handles it holds from WAITING_FOR_DISPATCH to WAITING_FOR_RESPONSE or ERROR and returns OK / CONNECTION_CLOSED / another error; getResponse hands out queued raw responses; it never alters a handle in another state (net_tcp_async.c reqQueue_clearWithError does not check the state - outside this model)",
   "M5 clock: time() constant during one call, non-decreasing between calls, < 2^40; difftime(a,b) = (double)(a-b); quick tier additionally assumes lemma L ((double)x > (double)T <=> x > T for 0 <= x < 2^40), which harness h0_lemma proves and the thorough tier does not use",
-  "handle recycling off (ctx->asyncHandleRecycle == NULL): every release is a real free(), so a stale reference is a use-after-free for CBMC",
+  "handle recycling off (ctx->asyncHandleRecycle == NULL) in H-1..H-9: every release is a real free(), so a stale reference is a use-after-free for CBMC; the recycler itself is the subject of H-10 (a handle released with arbitrary contents is re-constructed: every field as fresh)",
   "no push-configuration callback on the KSI_CTX; service-level callback presence is an instance parameter of H-3",
   "KSI_AbstractAsyncService_new (net.c) modelled as plain allocation with all callbacks NULL (H-8)",
   "function-pointer restrictions of H-7/H-8 (respCtx_free in {KSI_Config_free, KSI_AggregationResp_free}) are proof obligations inserted by goto-instrument, not assumptions"
@@ -167,7 +167,7 @@ plan = {
                 "operation of net_async.c, each proved as a one-step contract from an ARBITRARY Inv-state with cache sizes 1..2 (thorough 1..4): submission (cache-full exactly at the configured size, free slot, id = generation<<32|slot, generation steps on cursor wrap, "
                 "nothing retained on refusal), reply matching (only the WAITING_FOR_RESPONSE handle with the same full 64-bit id changes; unknown/stale-generation/duplicate/early replies change nothing), configuration delivery, error fan-out, "
                 "finalisation (returned at most once, only in a final state, timeouts only after the configured time or with timeout 0, nothing finished left behind), one service round (errors only with the cause that occurred, waiting = pending + received) and "
-                "batch processing of <= 2 raw responses (nothing applied from unparsable/unauthenticated data). A bounded-history harness drives 3-4 public operations from the constructors with an exactly-once monitor. "
+                "batch processing of <= 2 raw responses (nothing applied from unparsable/unauthenticated data). A bounded-history harness drives 3-4 public operations from the constructors with an exactly-once monitor; H-10 shows that a handle taken from the per-context recycle list after being released in an arbitrary state equals a fresh one in every field and is accepted like one. "
                 "Defects found: F14 (the cache-full test used == on a count that configuration handles can push past the cache size: the next KSI_AsyncService_addRequest looped forever) - the loop is repaired in /repo (a60d80b); "
                 "F9 (a second configuration request drops the first handle, pending drifts) and the counting part of F14 (configuration handles are accepted without a room check, outstanding can exceed the cache size by one) are recorded as known findings "
                 "(harness/C13/known_entries.json; they affect only instances labelled cnf_*/both_* of h1_add and f9_*/f14_* of h8_history) - see FINDINGS.md; with the full proposed patch every harness passes without exceptions.",
